@@ -1,9 +1,12 @@
 // C20 -- helper traits and the harness-generating macros.
 //
-// Every macro emits (a) a thin monomorphic wrapper `$w` whose body is ONE call into vek, carrying the
-// per-element law as a `#[kani::ensures]` contract (the scalar side of the law always calls the SAME
-// trait method of the dependency -- num_traits / az / approx -- on each element), and (b) the harness
-// `$h` that proves the contract over fully symbolic inputs with `#[kani::proof_for_contract]`.
+// The contract-style macros emit (a) a thin monomorphic wrapper `$w` whose body is ONE call into vek,
+// carrying the per-element law as a `#[kani::ensures]` contract (the scalar side of the law always calls
+// the SAME trait method of the dependency -- num_traits / az / approx -- on each element), and (b) the
+// harness `$h` that proves the contract over fully symbolic inputs with `#[kani::proof_for_contract]`.
+// Plain `#[kani::proof]` + assert! is used for: the "panics on every bad input" twins (`*_panics`,
+// `#[kani::should_panic]`), the vacuity guards, and the `*_uf` float harnesses (their stub writes a
+// static table, which a contract's write-set check would reject / make very slow).
 // `$f` ranges over the field accessors of the vector type (`x y z w`, `r g b a`, `0 1 2 ... 63`, ...),
 // so the harness text is identical for struct vectors and tuple-struct vectors.
 
@@ -437,56 +440,6 @@ macro_rules! approx_uf {
             $( $seed((a $($acc)+).to_bits(), (b $($acc)+).to_bits(), eps.to_bits(), max_ulps); )+
             let r = UlpsEq::ulps_eq(&a, &b, eps, max_ulps);
             assert!(r == (true $(&& UlpsEq::ulps_eq(&a $($acc)+, &b $($acc)+, eps, max_ulps))+));
-        }
-    };
-}
-
-/// Variants for the 32- and 64-lane vectors: identical statement, but the scalar side takes the value the
-/// model assigned to lane i's argument tuple directly from `$seed` (which is what a stubbed scalar call with
-/// those arguments returns -- see c20_uf_model_deterministic) instead of calling the stub again; this saves a
-/// third of the (quadratically many) table comparisons.
-macro_rules! lift_inv_uf_big {
-    ($h:ident, $V:ident<f32> ($($f:tt)+), $seed:ident, $inv:ident) => {
-        #[kani::proof]
-        #[kani::stub(<f32 as Inv>::inv, $inv)]
-        fn $h() {
-            let a = any_vec!($V<f32> ($($f)+));
-            let s = $V::<u32>::new($( $seed(a.$f.to_bits(), 0, 0, 0) ),+);
-            let r = Inv::inv(a);
-            assert!(true $(&& r.$f.to_bits() == s.$f)+);
-        }
-    };
-}
-macro_rules! approx_uf_big {
-    ($h_abs:ident, $h_rel:ident, $h_ulps:ident, $V:ident<f32> ($($f:tt)+), stubs($seed:ident, $abs:ident, $rel:ident, $ulps:ident)) => {
-        #[kani::proof]
-        #[kani::stub(<f32 as AbsDiffEq>::abs_diff_eq, $abs)]
-        fn $h_abs() {
-            let a = any_vec!($V<f32> ($($f)+));
-            let b = any_vec!($V<f32> ($($f)+));
-            let eps: f32 = kani::any();
-            let s = true $(& ($seed(a.$f.to_bits(), b.$f.to_bits(), eps.to_bits(), 0) & 1 == 1))+;
-            assert!(AbsDiffEq::abs_diff_eq(&a, &b, eps) == s);
-        }
-        #[kani::proof]
-        #[kani::stub(<f32 as RelativeEq>::relative_eq, $rel)]
-        fn $h_rel() {
-            let a = any_vec!($V<f32> ($($f)+));
-            let b = any_vec!($V<f32> ($($f)+));
-            let eps: f32 = kani::any();
-            let max_rel: f32 = kani::any();
-            let s = true $(& ($seed(a.$f.to_bits(), b.$f.to_bits(), eps.to_bits(), max_rel.to_bits()) & 1 == 1))+;
-            assert!(RelativeEq::relative_eq(&a, &b, eps, max_rel) == s);
-        }
-        #[kani::proof]
-        #[kani::stub(<f32 as UlpsEq>::ulps_eq, $ulps)]
-        fn $h_ulps() {
-            let a = any_vec!($V<f32> ($($f)+));
-            let b = any_vec!($V<f32> ($($f)+));
-            let eps: f32 = kani::any();
-            let max_ulps: u32 = kani::any();
-            let s = true $(& ($seed(a.$f.to_bits(), b.$f.to_bits(), eps.to_bits(), max_ulps) & 1 == 1))+;
-            assert!(UlpsEq::ulps_eq(&a, &b, eps, max_ulps) == s);
         }
     };
 }
